@@ -7,7 +7,11 @@ Alpha == {93, 91, 61, 45, 10, 13, 120}
 MaxLen == IF "MAXLEN" \in DOMAIN IOEnv THEN atoi(IOEnv.MAXLEN) ELSE 3
 Extra == { BytesOf("hello world"), BytesOf("[[ hello"), BytesOf("[==[x"), BytesOf("a\nb]]c]=]d"), BytesOf("ends with ]"),
            BytesOf("line1\nline2\n"), BytesOf("\n"), BytesOf("--"), BytesOf("x]]\n]"), BytesOf("]=]\n]]") }
-Texts == UNION {[1..n -> Alpha] : n \in 0..MaxLen} \cup Extra
+\* closer runs: every string of length <= 5 over ] and = (overlapping closers such as ]=]] or ]]=]), in the long form
+\* (line feed first or last) and in a line comment
+Runs == UNION {[1..n -> {93, 61}] : n \in 2..5}
+RunTexts == {<<120, 10>> \o r : r \in Runs} \cup {r \o <<10, 120>> : r \in Runs} \cup {<<120>> \o r : r \in Runs}
+Texts == UNION {[1..n -> Alpha] : n \in 0..MaxLen} \cup Extra \cup RunTexts
 VARIABLE t
 Init == t \in Texts
 Next == UNCHANGED t
